@@ -249,7 +249,7 @@ PROPS["C17"] = {
     "translators": ["consts", "layout2lean"],
     "lean_targets": prop_modules("C17") + ["JediVerif.Properties.C17Layout", "JediVerif.Properties.C17b"],
     "theorems": lambda: thms("C17") + module_theorems("JediVerif.Properties.C17Layout", "Jedi.C17") + module_theorems("JediVerif.Properties.C17b", "Jedi.C17"),
-    "streams": stream_set([("marshal", 4), ("encoding", 4), ("curve", 3), ("scalar", 2), ("wkdibe", 2)], ["asan", "asan-portable"], ["asan", "asan-portable"], scale=2),
+    "streams": stream_set([("marshal", 4), ("encoding", 4), ("curve", 3), ("scalar", 2), ("wkdibe", 2), ("lqibe", 2)], ["asan", "asan-portable"], ["asan", "asan-portable"], scale=2),
     "not_modelled": "absence of undefined behaviour in compiled C++ for every call sequence cannot be exhibited by a model: the sanitizer runs are runtime evidence over the streams of the other properties",
 }
 PROPS["C16"] = {
